@@ -381,6 +381,9 @@ class IntroVisitorIndirect(ast.NodeVisitor):
 
     def visit_Call(self, node: ast.Call) -> Any:
         # _logger.debug(f"visit: {node} {dir(node)} {pformat(node)}")
+        # The arguments of a call are evaluated before the call itself: visiting them first keeps
+        # the results in the order of execution (which is checked for the loads).
+        self.generic_visit(node)
         # The list of all the previous interactions.
         # Check the call for dds calls or sub_calls.
         fi_or_p = InspectFunctionIndirect.inspect_call(
@@ -392,7 +395,6 @@ class IntroVisitorIndirect(ast.NodeVisitor):
         )
         if fi_or_p is not None:
             self.results.append(fi_or_p)
-        self.generic_visit(node)
 
     def visit_Assign(self, node: ast.Assign) -> Any:
         targets = get_assign_targets(node)
